@@ -109,7 +109,18 @@ func genStore(repo, out string) {
 						order = append(order, "?")
 					}
 
-					if r, ok := lastReturn(st.(*ast.IfStmt).Body.List[0].(*ast.IfStmt).Body); !ok || r != "err" {
+					// the store call must be `if err := store.X(...); err != nil { return err }` (fail closed on any other shape)
+					aborts := false
+
+					if outer, ok := st.(*ast.IfStmt); ok && len(outer.Body.List) == 1 {
+						if inner, ok := outer.Body.List[0].(*ast.IfStmt); ok {
+							if r, ok := lastReturn(inner.Body); ok && r == "err" {
+								aborts = true
+							}
+						}
+					}
+
+					if !aborts {
 						order = append(order, "?")
 					}
 
